@@ -525,6 +525,48 @@ def r14_pairing(idx, r):
     pairing_rule(idx, r, ["armi.reactor.components", "armi.reactor.converters.blockConverters", "armi.materials.material"], 80)
 
 
+def r15_expanding_dims_and_links(idx, r):
+    """(a) a shape that narrows THERMAL_EXPANSION_DIMS keeps every dimension of its parent's set that it still stores (`_linkAndStoreDimensions`):
+    a Square that stores lengthOuter / lengthInner but lists only the widths stops expanding its lengths, and whatever is linked to them.
+    (b) resolveLinkedDims turns EVERY `component.dimension` string into a live link - whatever the dimension is called: a link to `mult`
+    resolved to today's number does not follow a later change of the other component."""
+    comp = idx.cls(COMP)
+
+    def own_set(c):
+        for st in c.node.body:
+            if isinstance(st, ast.Assign) and any(norm(t) == "THERMAL_EXPANSION_DIMS" for t in st.targets) and isinstance(st.value, (ast.Set, ast.Dict)):
+                return {e.value for e in getattr(st.value, "elts", []) if isinstance(e, ast.Constant)}
+        return None
+    n = 0
+    for c in idx.subclasses(comp):
+        mine = own_set(c)
+        init = c.methods.get("__init__")
+        if mine is None or init is None:
+            continue
+        stored = {k.arg for call in iter_calls(init.node) if call_attr(call) == "_linkAndStoreDimensions" for k in call.keywords if k.arg}
+        anc = next((own_set(a) for a in c.mro()[1:] if own_set(a)), None)
+        if not anc:
+            continue
+        n += 1
+        miss = sorted((anc & stored) - mine)
+        r.require(not miss, f"{c.name}:keeps-the-expanding-dimensions-it-stores", c, node=c.node,
+                  msg=f"{c.name} stores {miss} (expanding dimensions of its parent shape) but leaves them out of its own THERMAL_EXPANSION_DIMS: they stay at their input value when the component is heated")
+    if n < 3:
+        raise AnchorMissing("shapes that narrow THERMAL_EXPANSION_DIMS below a parent shape")
+    f = idx.method(COMP, "resolveLinkedDims")
+    sts = [s_ for s_ in iter_stores(f.node) if s_.kind == "subscript" and norm(s_.node.value) == "self.p"]
+    links = [s_ for s_ in sts if s_.value is not None and "_DimensionLink" in norm(s_.value)]
+    if not links:
+        raise AnchorMissing("resolveLinkedDims: the _DimensionLink store")
+    matchvars = {y.id for s_ in links for y in ast.walk(s_.value) if isinstance(y, ast.Name)}
+    for s_ in sts:
+        if not (matchvars & {y.id for y in ast.walk(s_.value) if isinstance(y, ast.Name)}) and s_ not in links:
+            continue
+        conds = [norm(t) for t, _p in path_conditions(f.node, s_.stmt) if matchvars & {y.id for y in ast.walk(t) if isinstance(y, ast.Name)}]
+        r.require(s_ in links and not conds, "resolveLinkedDims:every-link-stays-a-link", f, node=s_.stmt,
+                  msg=f"`{norm(s_.stmt)[:70]}` (under {conds}) stores something else than a live link for a `component.dimension` input: the value is frozen at construction and no longer follows the other component")
+
+
 def run(idx, chk):
     chk.explanation = (
         "C03: every two-dimensional shape's area formula is typed in the free abelian group generated by the linear expansion factor L "
@@ -556,3 +598,5 @@ def run(idx, chk):
                  necessary="a linked dimension equals the current dimension of the component and dimension it was linked to")
     chk.run_rule("R03.14", "arguments stand at the parameter they are named after; sibling calls forward the same pass-through parameters", lambda r: r14_pairing(idx, r), floor=1,
                  necessary="temperatures and dimensions are handed to the parameter they belong to")
+    chk.run_rule("R03.15", "a narrowed expansion table keeps the parent's dimensions it stores; every dimension link stays a link", lambda r: r15_expanding_dims_and_links(idx, r), floor=4,
+                 necessary="every thermally expanding dimension scales with the expansion factor; a linked dimension equals the other component's current one")
